@@ -39,6 +39,7 @@ type c18Scen struct {
 	calls  []c18Call
 	reader bool // a Current() reader thread
 	adder  *c18Desc
+	adder2 *c18Desc // a second concurrent Add (same or another operation)
 	bound  int
 }
 
@@ -72,6 +73,9 @@ func c18Scenarios(tier string) []c18Scen {
 		{name: "matching + non-matching callers, N=1", descs: []c18Desc{{"op", a1b2, 1}}, calls: []c18Call{{"op", a1b2, 1}, {"op", a1, 1}, {"op", a2, 1}, {"other", a1b2, 1}}, bound: b},
 		{name: "two overlapping descriptions N=1+1, 3 callers", descs: []c18Desc{{"op", a1, 1}, {"op", nil, 1}}, calls: []c18Call{{"op", a1b2, 1}, {"op", a1, 1}, {"op", a1, 1}}, bound: b},
 		{name: "reader + 2 callers, N=1", descs: []c18Desc{{"op", nil, 1}}, calls: []c18Call{{"op", nil, 1}, {"op", nil, 1}}, reader: true, bound: b},
+		// two injections at the same time (same operation: one list is appended to twice)
+		{name: "two concurrent Adds of one operation + 1 caller", descs: []c18Desc{{"op", nil, 1}}, calls: []c18Call{{"op", nil, 1}}, adder: &c18Desc{"op", a2, 1}, adder2: &c18Desc{"op", map[string]string{"a": "3"}, 2}, bound: -1},
+		{name: "two concurrent Adds of a fresh operation", descs: []c18Desc{{"op", nil, 1}}, calls: []c18Call{{"op", nil, 1}}, adder: &c18Desc{"new", a2, 1}, adder2: &c18Desc{"new", a1, 1}, bound: -1},
 		{name: "Add racing with 2 callers", descs: []c18Desc{{"op", nil, 1}}, calls: []c18Call{{"op", nil, 1}, {"op", nil, 1}}, adder: &c18Desc{"op", a2, 1}, bound: b},
 	}
 	if tier == "thorough" {
@@ -124,6 +128,11 @@ func runC18(t *testing.T, tier string) int {
 				if sc.adder != nil {
 					r.Go("adder", func() {
 						set.Add(faults.Description{Operation: sc.adder.op, Parameters: sc.adder.params, Count: sc.adder.count, OnFault: func(faults.Description, faults.Parameters) error { return errC18 }})
+					})
+				}
+				if sc.adder2 != nil {
+					r.Go("adder2", func() {
+						set.Add(faults.Description{Operation: sc.adder2.op, Parameters: sc.adder2.params, Count: sc.adder2.count, OnFault: func(faults.Description, faults.Parameters) error { return errC18 }})
 					})
 				}
 				err := r.RunToQuiescence(prefix, expect)
@@ -249,6 +258,12 @@ func c18Oracle(sc c18Scen, set *faults.Set, results [][]error, cur []map[string]
 	add := int64(0)
 	if sc.adder != nil {
 		add = sc.adder.count
+	}
+	if sc.adder2 != nil {
+		if sc.adder2.matches(sc.calls[0]) {
+			return "harness: adder2 must not match callers"
+		}
+		add += sc.adder2.count
 	}
 	if remaining != capacity+add-int64(failed) {
 		return fmt.Sprintf("VIOLATION Current() lists %d remaining injections, want %d", remaining, capacity+add-int64(failed))
